@@ -204,11 +204,12 @@ class Live(Family):
                 return {"r": ["error", "toomany"], "conns": conns}
             conns.append(urls[j])
             key = (h["host"], ports[h["peer"]])
-            if case.get("drop_at") == j and case["kind"] == "drop":
-                return {"r": ["error", "connection"], "conns": conns}
+            # the pin is checked right after the handshake, before anything is sent or read
             if key in pins and pins[key] != h["cert"]:
                 return {"r": ["error", "certchanged"], "conns": conns, "silent": True}
             pins[key] = h["cert"]
+            if case.get("drop_at") == j and case["kind"] == "drop":
+                return {"r": ["error", "connection"], "conns": conns}
             last = j == len(hops) - 1
             if last:
                 if case["kind"] == "loop":
